@@ -2,9 +2,14 @@
     equal the model's u256_mul (mul_rows / mul_row over limb lists).  Proved by symbolic execution of both sides on limb
     variables: the 16 inner iterations are run in lock step (same bits.Mul64 / bits.Add64 calls in the same order); the two
     wrapping additions hi += c of each iteration are shown not to wrap (mul_step_facts).  In a file of its own so that it
-    compiles in parallel with GenProofs.v. *)
+    compiles in parallel with GenProofs.v.
+    Fallback when the lock-step script no longer applies (other loop structure, helper functions, renamed or reordered
+    statements): the translated code is executed symbolically keeping, for every 64x64 step, the value equation
+    hi*W + lo = x*y + r + carry (mul_step_val); the limb products are then eliminated and the SPECIFICATION
+    (exact product iff it fits, Panic otherwise) is closed by lia; equality with the model follows because the model
+    meets the same complete specification (u256_mul_exact) and val256 is injective on well-formed limbs. *)
 From Coq Require Import ZArith List Bool Lia.
-From OBI.C20 Require Import Model Proofs.
+From OBI.C20 Require Import Model Proofs GenTac.
 From OBI.C20.Gen Require Import Translated.
 Import ListNotations.
 Open Scope Z_scope.
@@ -52,12 +57,101 @@ Ltac mul_iter :=
     remember (hi + c1 + c2) as K eqn:EK; clear EK Em E1 E2 F1 F2
   end end end.
 
-Lemma L_Uint256_Mul_eq : forall u v, wf256 u -> wf256 v -> T_Uint256_Mul u v = u256_mul u v.
+Lemma mul_step_val ai bj rij carry hi lo lo1 c1 lo2 c2 :
+  inW ai -> inW bj -> inW rij -> inW carry ->
+  mul64 ai bj = (hi, lo) -> add64 lo rij 0 = (lo1, c1) -> add64 lo1 carry 0 = (lo2, c2) ->
+  (hi + c1) mod W = hi + c1 /\ (hi + c1 + c2) mod W = hi + c1 + c2 /\ inW lo2 /\ inW (hi + c1 + c2) /\
+  (hi + c1 + c2) * W + lo2 = ai * bj + rij + carry.
 Proof.
-  intros [a3 a2 a1 a0] [b3 b2 b1 b0] (A3 & A2 & A1 & A0) (B3 & B2 & B1 & B0). cbn [q3 q2 q1 q0] in *.
-  fold (inW a3) in A3. fold (inW a2) in A2. fold (inW a1) in A1. fold (inW a0) in A0.
-  fold (inW b3) in B3. fold (inW b2) in B2. fold (inW b1) in B1. fold (inW b0) in B0.
-  unfold T_Uint256_Mul, u256_mul. cbn [q3 q2 q1 q0]. cbv zeta.
-  do 16 (ev; mul_iter). ev.
-  repeat (match goal with |- context [Z.eqb ?a 0] => destruct (Z.eqb a 0) end; cbn [negb andb bind]); reflexivity.
+  intros Ha Hb Hr Hc Em E1 E2. pose proof W_val as WV.
+  destruct (mul64_eq _ _ _ _ Ha Hb Em) as (Hh & Hl & Ep).
+  destruct (add64_eq lo rij 0 lo1 c1 Hl Hr ltac:(lia) E1) as (Hl1 & Hc1 & Q1).
+  destruct (add64_eq lo1 carry 0 lo2 c2 Hl1 Hc ltac:(lia) E2) as (Hl2 & Hc2 & Q2).
+  assert (P : ai * bj <= (W - 1) * (W - 1)) by (unfold inW in *; nia).
+  unfold inW in *. rewrite WV in *.
+  set (P0 := ai * bj) in *. clearbody P0.
+  assert (B : 0 <= hi + c1 + c2 < 18446744073709551616) by lia.
+  repeat split; try (rewrite Z.mod_small); try lia.
 Qed.
+
+Ltac mulv_iter :=
+  match goal with |- context [mul64 ?x ?y] =>
+    let hi := fresh "hi" in let lo := fresh "lo" in let Em := fresh "Em" in
+    destruct (mul64 x y) as [hi lo] eqn:Em; cbv beta iota zeta;
+    match goal with |- context [add64 lo ?r 0] =>
+      let lo1 := fresh "lo" in let c1 := fresh "c" in let E1 := fresh "E" in
+      destruct (add64 lo r 0) as [lo1 c1] eqn:E1; cbv beta iota zeta;
+      match goal with |- context [add64 lo1 ?k 0] =>
+        let lo2 := fresh "lo" in let c2 := fresh "c" in let E2 := fresh "E" in
+        destruct (add64 lo1 k 0) as [lo2 c2] eqn:E2; cbv beta iota zeta;
+        let F := fresh "F" in
+        pose proof (mul_step_val x y r k hi lo lo1 c1 lo2 c2 ltac:(inw) ltac:(inw) ltac:(inw) ltac:(inw) Em E1 E2) as F;
+        let F1 := fresh "F" in let F2 := fresh "F" in let F3 := fresh "F" in let F4 := fresh "F" in let F5 := fresh "V" in
+        destruct F as (F1 & F2 & F3 & F4 & F5); rewrite ?F1, ?F2;
+        let K := fresh "K" in let EK := fresh "EK" in
+        remember (hi + c1 + c2) as K eqn:EK; clear EK Em E1 E2 F1 F2
+      end end end.
+Ltac mulv_exec := repeat first [ progress T_loops_step | progress cbn [bind] | g_closed | mulv_iter ].
+
+Ltac solve_atoms := repeat match goal with
+  | V : ?K * ?Wc + ?lo = ?x * ?y + ?r + ?c |- _ =>
+      let p := fresh "p" in let E := fresh "E" in
+      set (p := x * y) in *;
+      assert (E : p = K * Wc + lo - r - c) by lia; clearbody p; clear V; subst p
+  end.
+
+Definition mulspec (u v : u256) (t : res u256) : Prop :=
+  (val256 u * val256 v < W4 -> exists r, t = Ok r /\ wf256 r /\ val256 r = val256 u * val256 v) /\
+  (W4 <= val256 u * val256 v -> t = Panic).
+
+
+Lemma val256_inj a b : wf256 a -> wf256 b -> val256 a = val256 b -> a = b.
+Proof.
+  destruct a as [a3 a2 a1 a0], b as [b3 b2 b1 b0]. unfold wf256, val256; cbn [q3 q2 q1 q0]. g_W. intros Ha Hb E.
+  assert (a0 = b0) by lia. subst. assert (a1 = b1) by lia. subst. assert (a2 = b2) by lia. subst.
+  assert (a3 = b3) by lia. subst. reflexivity.
+Qed.
+Lemma mulspec_unique u v t1 t2 : mulspec u v t1 -> mulspec u v t2 -> t1 = t2.
+Proof.
+  intros [A1 B1] [A2 B2]. destruct (Z.lt_ge_cases (val256 u * val256 v) W4) as [L|G].
+  - destruct (A1 L) as (r1 & -> & W1 & V1). destruct (A2 L) as (r2 & -> & W2' & V2).
+    f_equal. apply val256_inj; [assumption|assumption|congruence].
+  - rewrite (B1 G), (B2 G). reflexivity.
+Qed.
+Lemma model_mulspec u v : wf256 u -> wf256 v -> mulspec u v (u256_mul u v).
+Proof. intros. apply u256_mul_exact; assumption. Qed.
+
+Ltac gen_mul :=
+  let u := fresh "u" in let v := fresh "v" in let Hu := fresh "Hu" in let Hv := fresh "Hv" in
+  intros u v Hu Hv; apply (mulspec_unique u v); [ | apply model_mulspec; assumption ];
+  destruct u as [a3 a2 a1 a0], v as [b3 b2 b1 b0];
+  destruct Hu as (A3 & A2 & A1 & A0), Hv as (B3 & B2 & B1 & B0); cbn [q3 q2 q1 q0] in *;
+  fold (inW a3) in A3; fold (inW a2) in A2; fold (inW a1) in A1; fold (inW a0) in A0;
+  fold (inW b3) in B3; fold (inW b2) in B2; fold (inW b1) in B1; fold (inW b0) in B0;
+  unfold mulspec;
+  let PE := fresh "PE" in
+  assert (PE : val256 (mk256 a3 a2 a1 a0) * val256 (mk256 b3 b2 b1 b0) =
+     a0*b0 + (a0*b1 + a1*b0) * W + (a0*b2 + a1*b1 + a2*b0) * (W*W) + (a0*b3 + a1*b2 + a2*b1 + a3*b0) * (W*W*W)
+     + (a1*b3 + a2*b2 + a3*b1) * (W*W*W*W) + (a2*b3 + a3*b2) * (W*W*W*W*W) + (a3*b3) * (W*W*W*W*W*W))
+    by (unfold val256; cbn [q3 q2 q1 q0]; ring);
+  rewrite PE; clear PE;
+  T_unfold_all; cbv beta iota zeta delta [q3 q2 q1 q0];
+  mulv_exec;
+  unfold W4, W2, inW in *; g_W;
+  g_norm; repeat (g_cmp1; g_norm);
+  (split; let HP := fresh "HP" in intros HP);
+  try reflexivity; solve_atoms;
+  first [ (exfalso; lia)
+        | (eexists; split; [reflexivity|]; split;
+           [ unfold wf256; cbn [q3 q2 q1 q0]; g_W; lia | unfold val256; cbn [q3 q2 q1 q0]; g_W; lia ]) ].
+
+Ltac old_mul :=
+  intros [a3 a2 a1 a0] [b3 b2 b1 b0] (A3 & A2 & A1 & A0) (B3 & B2 & B1 & B0); cbn [q3 q2 q1 q0] in *;
+  fold (inW a3) in A3; fold (inW a2) in A2; fold (inW a1) in A1; fold (inW a0) in A0;
+  fold (inW b3) in B3; fold (inW b2) in B2; fold (inW b1) in B1; fold (inW b0) in B0;
+  unfold T_Uint256_Mul, u256_mul; cbn [q3 q2 q1 q0]; cbv zeta;
+  do 16 (ev; mul_iter); ev;
+  repeat (match goal with |- context [Z.eqb ?a 0] => destruct (Z.eqb a 0) end; cbn [negb andb bind]); reflexivity.
+
+Lemma L_Uint256_Mul_eq : forall u v, wf256 u -> wf256 v -> T_Uint256_Mul u v = u256_mul u v.
+Proof. first [ solve [ old_mul ] | solve [ timeout 300 gen_mul ] ]. Qed.
